@@ -147,7 +147,7 @@ def run(ctx):
     # third of it, rotating with the seed (every compound form and every read kind is present in every run)
     nr = len(Builder.RVE_READS)
     rve = [p for k, p in enumerate(RVE_POSITIONS) if ctx.tier != "quick" or (k // nr + k % nr + ctx.seed) % 3 == 0]
-    positions = list(Builder.POSITIONS) + rve
+    positions = list(Builder.POSITIONS) + rve + list(Builder.RVE_CPLX)
     jobs = [(pos, rnd) for rnd in range(rounds) for pos in positions
             if not (pos.startswith("rve_") and rnd >= 2)]     # the read-vs-effect tests have (almost) no random choices
     global _CLS
